@@ -175,12 +175,12 @@ func genSeqCase(format string) func(t *rapid.T) seqCase {
 
 func TestFastaLayout(t *testing.T) {
 	vlib.Run(t, vlib.Prop[seqCase]{Name: "fasta-layout", Checks: 2500, Thorough: 200000, Gen: genSeqCase("fasta"), Check: checkSeq, Classes: seqClasses,
-		MinFrac: map[string]float64{"crlf": 0.3, "no-final-eol": 0.3, "blank-lines": 0.2, "rewrapped": 0.3, "physical-line>4096": 0.02, "last-line-multiple-of-4096+no-final-eol": 0.02}})
+		MinFrac: map[string]float64{"crlf": 0.25, "no-final-eol": 0.25, "blank-lines": 0.2, "rewrapped": 0.3, "physical-line>4096": 0.02, "last-line-multiple-of-4096+no-final-eol": 0.02}})
 }
 
 func TestFastqLayout(t *testing.T) {
 	vlib.Run(t, vlib.Prop[seqCase]{Name: "fastq-layout", Checks: 2500, Thorough: 200000, Gen: genSeqCase("fastq"), Check: checkSeq, Classes: seqClasses,
-		MinFrac: map[string]float64{"crlf": 0.3, "no-final-eol": 0.3, "blank-lines": 0.2, "physical-line>4096": 0.02, "last-line-multiple-of-4096+no-final-eol": 0.02}})
+		MinFrac: map[string]float64{"crlf": 0.25, "no-final-eol": 0.25, "blank-lines": 0.2, "physical-line>4096": 0.02, "last-line-multiple-of-4096+no-final-eol": 0.02}})
 }
 
 // ---- BED / GFF: terminator style and final terminator ------------------------
@@ -266,7 +266,7 @@ func TestFeatureLayout(t *testing.T) {
 			return c
 		},
 		Check: checkFeat, Classes: featClasses,
-		MinFrac: map[string]float64{"crlf": 0.3, "no-final-eol": 0.3, "no-final-eol/last=seq": 0.01, "no-final-eol/last=feature": 0.05}})
+		MinFrac: map[string]float64{"crlf": 0.25, "no-final-eol": 0.25, "no-final-eol/last=seq": 0.01, "no-final-eol/last=feature": 0.05}})
 }
 
 var _ = fmt.Sprint
